@@ -1,0 +1,123 @@
+//go:build verif
+
+package bigbuff
+
+import (
+	"context"
+	"sync"
+	"sync/atomic"
+	"time"
+)
+
+// This file only exists in builds using the "verif" build tag. It exposes the hook used by external verification
+// harnesses (a single function variable, called at synchronisation points), and a handful of read-only accessors for
+// internal state, which are only safe to call while every other goroutine is known to be blocked.
+
+var verifHook atomic.Pointer[func(pt string, obj any, n int)]
+
+// VerifSetHook installs (or, with nil, removes) the verification hook.
+func VerifSetHook(f func(pt string, obj any, n int)) {
+	if f == nil {
+		verifHook.Store(nil)
+		return
+	}
+	verifHook.Store(&f)
+}
+
+func verifAt(pt string, obj any, n int) {
+	if h := verifHook.Load(); h != nil {
+		(*h)(pt, obj, n)
+	}
+}
+
+// VerifBufferState returns the buffer's base offset, length, and the committed offsets of its consumers (unsynchronised).
+func VerifBufferState(b *Buffer) (offset, size int, committed map[Consumer]int) {
+	committed = make(map[Consumer]int, len(b.consumers))
+	for c, o := range b.consumers {
+		committed[c] = o
+	}
+	return b.offset, len(b.buffer), committed
+}
+
+// VerifConsumerDelta returns the uncommitted read count of a Buffer consumer (unsynchronised), or -1.
+func VerifConsumerDelta(c Consumer) int {
+	if c, ok := c.(*consumer); ok && c != nil {
+		return c.offset
+	}
+	return -1
+}
+
+// VerifChannelState returns the length of the pending buffer and the rollback counter (unsynchronised).
+func VerifChannelState(c *Channel) (buffered, rollback int) {
+	return len(c.buffer), c.rollback
+}
+
+// VerifExclusiveKeys returns the number of keys currently present in the work map (unsynchronised).
+func VerifExclusiveKeys(e *Exclusive) int { return len(e.work) }
+
+// VerifWorkersState returns count, target and queue length (unsynchronised).
+func VerifWorkersState(w *Workers) (count, target, queue int) { return w.count, w.target, len(w.queue) }
+
+// VerifWorkerState reports whether an instance exists (stop/done non-nil) and whether holders are registered.
+func VerifWorkerState(x *Worker) (instance, holders bool) {
+	return x.stop != nil || x.done != nil, x.wg != nil
+}
+
+// VerifNotifierSize returns the number of (key, target) subscriptions (unsynchronised).
+func VerifNotifierSize(n *Notifier) (keys, subs int) {
+	for _, m := range n.subscribers {
+		keys++
+		subs += len(m)
+	}
+	return
+}
+
+// VerifChanCasterState returns the hi and lo words of the packed state.
+func VerifChanCasterState[C chan V, V any](x *ChanCaster[C, V]) (hi, lo uint32) {
+	s := x.state.Load()
+	return uint32(s >> 32), uint32(s)
+}
+
+// VerifChanPubSubState returns subscribers, pongN, the embedded caster words, and whether broken.
+func VerifChanPubSubState[C chan V, V any](x *ChanPubSub[C, V]) (subscribers, pongN int, hi, lo uint32, broken bool) {
+	s := x.ping.state.Load()
+	select {
+	case <-x.broken:
+		broken = true
+	default:
+	}
+	return int(x.subscribers.Load()), x.pongN, uint32(s >> 32), uint32(s), broken
+}
+
+// VerifSetWaitDuration replaces the package's wait function (used by ExponentialRetry), returning the previous one.
+func VerifSetWaitDuration(f func(ctx context.Context, d time.Duration)) (old func(ctx context.Context, d time.Duration)) {
+	old = waitDuration
+	waitDuration = f
+	return
+}
+
+// VerifSetCalcExponentialRetry replaces the package's delay calculation, returning the previous one.
+func VerifSetCalcExponentialRetry(f func(d time.Duration, c uint32) time.Duration) (old func(d time.Duration, c uint32) time.Duration) {
+	old = calcExponentialRetry
+	calcExponentialRetry = f
+	return
+}
+
+// VerifCleanupLogic exposes the unexported clamp-and-shift logic of the cleaner for a freshly built buffer with the
+// given contents, relative consumer offsets and cleaner; it returns the resulting base offset and size.
+func VerifCleanupLogic(size int, offsets []int, cleaner Cleaner) (shifted bool, offset, newSize int) {
+	b := &Buffer{
+		consumers: make(map[*consumer]int, len(offsets)),
+		buffer:    make([]interface{}, size),
+		cleaner:   &CleanerConfig{Cleaner: cleaner},
+	}
+	for i := range b.buffer {
+		b.buffer[i] = i
+	}
+	b.cond = sync.NewCond(&b.mutex)
+	for _, o := range offsets {
+		b.consumers[new(consumer)] = o
+	}
+	shifted = b.cleanupLogic()
+	return shifted, b.offset, len(b.buffer)
+}
